@@ -19,7 +19,8 @@ RULE = ("problem ASTs over generated domains (typed, grouped, untyped and :priva
         "constants and repeated objects as arguments, 0-ary atoms, integer/decimal/negative/exponent values, numeric "
         "goals), and single-point corruptions of them (argument replaced by an object of another type, arity +-1, "
         "undeclared predicate/function/object, wrong :domain) in init facts, init fluents, goal literals and goal "
-        "conditions.  The reference decides validity (a replacement that still conforms by the type tree is valid). "
+        "conditions; 40 % are parsed after another valid problem (declaring one more object) went through the same Domain "
+        "object, which must come out with unchanged constants.  The reference decides validity (a replacement that still conforms by the type tree is valid). "
         "Non-trivial = a valid problem with a subtype or constant argument, or a corruption.  Distinct by problem text.")
 ASSUMPTIONS = ["fluents of arity >= 3 with a repeated object are excluded (representation finding K2)",
                "negative goal literals are not generated (the library documents goals as positive facts + numeric conditions)"]
